@@ -2,14 +2,14 @@
 # usage: tools/eval_seed.sh <Cxx> <mN> <crate> [extra props to run...]
 # confirm (scratch worktree) + run the property's quick check on /repo with the change applied + store under /verif/seeded
 id="$1"; m="$2"; crate="$3"; shift 3
-out=/tmp/seed/$id/out/$m
+root=${SEEDROOT:-/tmp/seed}; tag=${SEEDTAG:-}; out=$root/$id/out/$m
 c=$(/verif/tools/confirm_seed.sh $id $m $crate)
 echo "$c"
 r=$(/verif/tools/try_seed.sh $out/patch.diff quick $id "$@")
 echo "$r"
-dst=/verif/seeded/$id-$m; mkdir -p $dst
+dst=/verif/seeded/$id-$tag$m; mkdir -p $dst
 cp $out/patch.diff $dst/patch.diff; cp $out/demo.rs $dst/demo.rs; cp $out/notes.md $dst/notes.md 2>/dev/null
-python3 - "$id" "$m" "$crate" "$c" "$r" <<'PY'
+python3 - "$id" "$tag$m" "$crate" "$c" "$r" <<'PY'
 import json,sys,re
 id,m,crate,c,r=sys.argv[1:6]
 notes=open(f'/verif/seeded/{id}-{m}/notes.md').read() if True else ''
